@@ -291,6 +291,28 @@ func (p *e19Prover) le1(v ssa.Value, t e19Term, strict bool, facts []core.Fact, 
 			}
 		}
 	}
+	// 1b. io.Reader/io.Writer contract: n of r.Read(p) / w.Write(p) is ≤ len(p)
+	if ex, ok := v.(*ssa.Extract); ok && ex.Index == 0 && !strict && t.minus == nil {
+		if call, ok := ex.Tuple.(*ssa.Call); ok {
+			name := ""
+			var arg ssa.Value
+			if call.Common().IsInvoke() {
+				name = call.Common().Method.Name()
+				if len(call.Common().Args) == 1 {
+					arg = call.Common().Args[0]
+				}
+			} else if f := call.Common().StaticCallee(); f != nil && f.Signature.Recv() != nil && len(call.Common().Args) == 2 {
+				name, arg = f.Name(), call.Common().Args[1]
+			}
+			if (name == "Read" || name == "Write") && arg != nil {
+				if _, isSl := arg.Type().Underlying().(*types.Slice); isSl {
+					if (t.val != nil && e19DenotesLen(t.val, arg)) || (t.val == nil && t.base != nil && e19SameBase(t.base, arg)) {
+						return true
+					}
+				}
+			}
+		}
+	}
 	// 2. intervals
 	if t.minus == nil && (t.val != nil || t.base != nil) {
 		a := p.e.Eval(v, at, core.KInt)
@@ -355,7 +377,7 @@ func (p *e19Prover) le1(v ssa.Value, t e19Term, strict bool, facts []core.Fact, 
 		if pv, pi := e19ParamIndex(v); pv != nil {
 			if _, oi := e19ParamIndex(ot.obj); oi >= 0 && ot.obj.Parent() == pv.Parent() {
 				fn := pv.Parent()
-				edges := p.c.P.Callers(fn)
+				edges := p.c.P.RealCallers(fn)
 				okAll := len(edges) > 0 && len(edges) <= 8 && fn.Parent() == nil
 				for _, ed := range edges {
 					if !okAll {
@@ -602,7 +624,7 @@ var err11Exceptions = []e19TaintException{
 						if bp == nil || bp.Parent() != sp.Parent() {
 							return false, "the string is a parameter but the bound is not"
 						}
-						edges := c.P.Callers(sp.Parent())
+						edges := c.P.RealCallers(sp.Parent())
 						if len(edges) == 0 || len(edges) > 4 {
 							return false, "the helper has no or too many callers"
 						}
